@@ -532,6 +532,13 @@ def run_traces(rep: C.Report, wd: str, tier: str, seed: int) -> None:
             fam[e["family"]] = fam.get(e["family"], 0) + 1
         rep.case((e["ev"], str(e)[:300]), nontrivial=e["ev"] != "new")
     rep.add_part("code->spec trace validation (SessionTrace.tla)", traces=ntr, events=len(events), families=fam, verdicts=len(verdicts))
+    report_verdicts(rep, events, verdicts)
+    for e in events[1:4]:
+        rep.sample({k: (v if not isinstance(v, list) or len(v) < 30 else v[:30] + ["..."]) for k, v in e.items()})
+    run_test_traces(rep, wd)
+
+
+def report_verdicts(rep: C.Report, events: t.List[t.Dict[str, t.Any]], verdicts: t.List[t.Tuple[int, str, str]]) -> None:
     # context of an event: its trace
     starts = [j for j, e in enumerate(events) if e["ev"] == "new"]
     import bisect
@@ -543,5 +550,39 @@ def run_traces(rep: C.Report, wd: str, tier: str, seed: int) -> None:
         sig = KNOWN_CLAUSES.get((prop, clause)) or f"{clause}/{role}/{e['ev']}" + (f"/{e.get('k')}" if e["ev"] == "send" else "") + (f"/{e['res']}" if e["ev"] == "recv" and clause in ("OnlyProtocolError",) else "")
         hist = [{k: (v if not isinstance(v, list) or len(v) < 80 else v[:80] + ["..."]) for k, v in ev.items()} for ev in events[t0: idx + 1]][-12:]
         rep.violation(sig, f"{clause} failed at event {idx - t0} of a recorded {role} trace ({events[t0]['family']}): {e['ev']} -> {e.get('res')} {e.get('exc', '')}", {"role": role, "trace_tail": hist}, prop=prop)
-    for e in events[1:4]:
-        rep.sample({k: (v if not isinstance(v, list) or len(v) < 30 else v[:30] + ["..."]) for k, v in e.items()})
+
+
+def run_test_traces(rep: C.Report, wd: str) -> None:
+    """The repository's own session tests, recorded from outside by the pytest plugin vf.testtrace and validated against
+    SessionTrace.tla: every clause on every step of every scenario the maintainers wrote."""
+    import os
+    import subprocess
+    import sys
+
+    out = os.path.join(wd, "testtrace.ndjson")
+    env = dict(os.environ, VERIF_TESTTRACE_OUT=out, PYTHONPATH=os.path.join(C.VERIF, "py") + os.pathsep + os.path.join(C.REPO, "src"), PYTHONDONTWRITEBYTECODE="1")
+    cmd = [sys.executable, "-m", "pytest", "-q", "-x", "-p", "no:cacheprovider", "-p", "vf.testtrace", "--timeout=300", "tests/test_session.py"]
+    try:
+        p = subprocess.run(cmd, cwd=C.REPO, env=env, stdout=subprocess.PIPE, stderr=subprocess.STDOUT, timeout=600)
+    except subprocess.TimeoutExpired as ex:
+        raise C.MachineryError("the repository's session tests did not finish under the trace recorder") from ex
+    if not os.path.exists(out):
+        raise C.MachineryError("trace recorder wrote nothing:\n" + p.stdout.decode(errors="replace")[-1500:])
+    events = [json.loads(line) for line in open(out)]
+    if p.returncode != 0:
+        # a failing test of the repository is not this check's verdict (the brief's mutants pass the suite); the part of
+        # the run that was recorded is still validated
+        rep.add_part("repository session tests under the recorder", note="pytest exit status %d" % p.returncode)
+    if not events:
+        return
+    verdicts, gen, dist = C.validate_traces("SessionTrace", "SessionTrace.cfg", events, wd, tag="testtrace", timeout=900, shards=1,
+                                            boundary=lambda e: e.get("ev") == "new", xss="256m")
+    rep.states += dist
+    rep.transitions += gen
+    ntr = sum(1 for e in events if e["ev"] == "new")
+    rep.traces += ntr
+    for e in events:
+        rep.case((e["ev"], str(e)[:300]), nontrivial=e["ev"] != "new")
+    rep.add_part("code->spec: traces of the repository's own tests/test_session.py (recorded by vf.testtrace, SessionTrace.tla)", traces=ntr,
+                 events=len(events), verdicts=len(verdicts))
+    report_verdicts(rep, events, verdicts)
